@@ -11,6 +11,8 @@ Ties        : K  every function probed on a geometry grid (arange data + sentine
 Layouts     : every probe and every oracle statement is repeated with the same logical argument stored C-contiguous,
               F-contiguous, as a fully / partially transposed view, as a strided slice of a larger array and with
               negative strides ("any x" includes its memory layout; the model abstracts from layout, the check ties that)
+Sequences   : index arrays shared across im2col/col2im calls, and two images with one geometry: every call must give the
+              model's table whatever was called before, earlier results and the caller's arrays must stay intact
 Oracle      : direct NumPy statements on the implementation (no Coq): the three im2col outputs are array_equal, the three
               col2im outputs are equal, vdot(im2col x, y) == vdot(x, col2im y) on integer data, fold(unfold(ones)) equals
               the brute-force coverage count, a 15-line loop specification of unfold / windows, torch.nn.functional.unfold/fold.
@@ -287,6 +289,130 @@ def probe_1d(g, layout="C"):
     except Exception:
         tc = BAD
     return tw, tc
+
+
+# ------------------------------------------------------------------ call sequences: no state may leak between calls
+def _snap(arrs):
+    np = _impl().np
+    return [(np.asarray(a).shape, np.asarray(a).dtype.str, np.ascontiguousarray(a).tobytes()) for a in arrs]
+
+
+def probe_sequences(g):
+    """Call sequences on one geometry.  The model is a pure function of (geometry, argument), so every call of a sequence
+    must give the model's table whatever was called before, results handed out earlier must not change afterwards, and
+    arrays owned by the caller (index arrays, inputs) must be bit-identical afterwards.
+    Returns ({fid: {label: table}}, [failure dicts {site, klass, expected, observed}])."""
+    impl = _impl(); np = impl.np; ct = impl.conv_tools; sg = impl.synapgrad; NF = impl.NF
+    a = args_of(g)
+    N, C, H, W = g["N"], g["C"], g["H"], g["W"]
+    lH, lW, R, L = dims(g)
+    n_in = N * C * H * W
+    shp = (N, C, H, W)
+    t, fails = {}, []
+
+    def put(fid, label, table):
+        t.setdefault(fid, {})[label] = table
+
+    def fail(site, klass, expected, observed):
+        fails.append(dict(site=site, klass=klass, expected=expected, observed=observed, seed=0))
+
+    def codes_fwd(out, want, shift=0):
+        if out is None or tuple(np.asarray(out).shape) != want:
+            return BAD
+        c = to_codes(out)
+        return [v - shift if v > 0 else v for v in c] if shift else c
+
+    def scatter_codes(img, n):
+        img = np.asarray(img)
+        if tuple(img.shape) != shp:
+            return BAD
+        return decode_scatter(img.ravel().tolist(), n, n_in)
+
+    x1 = (1 + np.arange(n_in, dtype=np.float64)).reshape(shp)
+    x2 = x1 + n_in
+    kw = dict(dilation=a["dilation"], stride=a["stride"], padding=a["padding"])
+
+    # ---- A. index arrays reused across calls (index-based variant) ------------------------------------------------
+    y3 = pow4(N * R * L).reshape(N, R, L)
+    y2 = pow4(N * R * L).reshape(R, N * L)
+    for origin in ("get_im2col_indices", "return_indices"):
+        try:
+            if origin == "get_im2col_indices":
+                idx = ct.get_im2col_indices(shp, kernel_size=a["kernel"], **kw)
+                o1 = ct.im2col(x1, a["kernel"], pad_value=-1.0, col_indices=idx, as_unfold=True, **kw)
+            else:
+                o1, idx = ct.im2col(x1, a["kernel"], pad_value=-1.0, return_indices=True, as_unfold=True, **kw)
+            snap = _snap(idx)
+            put(0, "%s: im2col #1" % origin, codes_fwd(o1, (N, R, L)))
+            c1, idx_b = ct.col2im(y3, shp, a["kernel"], a["dilation"], a["stride"], a["padding"], col_indices=idx, return_indices=True)
+            put(7, "%s: col2im #1 (same indices)" % origin, scatter_codes(c1, N * R * L))
+            c2 = ct.col2im(y3, shp, a["kernel"], a["dilation"], a["stride"], a["padding"], col_indices=idx_b)
+            put(7, "%s: col2im #2 (same indices)" % origin, scatter_codes(c2, N * R * L))
+            c3 = ct.col2im(y2, shp, a["kernel"], a["dilation"], a["stride"], a["padding"], col_indices=idx)
+            put(10, "%s: col2im #3 (2-D, same indices)" % origin, scatter_codes(c3, N * R * L))
+            o2 = ct.im2col(x1, a["kernel"], pad_value=-1.0, col_indices=idx, as_unfold=False, **kw)
+            put(3, "%s: im2col #2 after three col2im (same indices)" % origin, codes_fwd(o2, (R, N * L)))
+            if _snap(idx) != snap:
+                changed = [nm for nm, u, v in zip("kij", _snap(idx), snap) if u != v]
+                fail("conv_tools.col2im", "caller-index-arrays-mutated",
+                     "the (k, i, j) arrays obtained from %s are bit-identical after im2col/col2im calls that were given them" % origin,
+                     "arrays %s changed" % changed)
+        except Exception as ex:
+            fail("conv_tools.im2col/col2im", "index-reuse-sequence-raises", "sequence im2col, col2im x3, im2col with shared col_indices runs",
+                 "%s: %s" % (type(ex).__name__, str(ex)[:120]))
+
+    # ---- B. two images, same geometry: the first result must survive the second call -------------------------------
+    ones_w = np.ones((1, C, g["kH"], g["kW"]))
+    entries = [(k, "conv_tools.%s(as_unfold=True)" % nm, (N, R, L),
+                lambda x, nm=nm: getattr(ct, nm)(x, a["kernel"], pad_value=-1.0, as_unfold=True, **kw)) for k, nm in enumerate(FWD)]
+    entries += [(3 + k, "conv_tools.%s" % nm, (R, N * L),
+                 lambda x, nm=nm: getattr(ct, nm)(x, a["kernel"], pad_value=-1.0, as_unfold=False, **kw)) for k, nm in enumerate(FWD)]
+    entries.append((6, "conv_tools.extract_windows", (lH, lW, N, C, g["kH"], g["kW"]),
+                    lambda x: ct.extract_windows(x, a["kernel"], a["stride"], a["padding"], a["dilation"], pad_value=-1.0)))
+    entries.append((14, "nn.functional.unfold", (N, R, L),
+                    lambda x: NF.unfold(sg.Tensor(x), a["kernel"], a["dilation"], a["stride"], a["padding"], -1.0).data))
+    # forward kernels that keep the window view for their backward pass (judged here only, not compared in Coq)
+    cpu = impl.cpu_ops
+    entries.append((None, "cpu_ops.conv2d_forward (windows kept for backward)", None,
+                    lambda x: cpu.conv2d_forward(x, ones_w, None, a["stride"], a["padding"], a["dilation"])[1]))
+    entries.append((None, "cpu_ops.avg_pool2d_forward (windows kept for backward)", None,
+                    lambda x: cpu.avg_pool2d_forward(x, a["kernel"], a["stride"], a["padding"], a["dilation"])[2]))
+    entries.append((None, "cpu_ops.max_pool2d_forward (windows kept for backward)", None,
+                    lambda x: cpu.max_pool2d_forward(x, a["kernel"], a["stride"], a["padding"], a["dilation"])[2]))
+    xs = _snap([x1, x2])
+    for fid, site, want, call in entries:
+        try:
+            r1 = call(x1)
+            before = np.array(r1, copy=True)
+            r2 = call(x2)
+            after = np.array(r1, copy=True)
+        except Exception as ex:
+            fail(site, "two-image-sequence-raises", "r1 = f(x1); r2 = f(x2) runs", "%s: %s" % (type(ex).__name__, str(ex)[:120]))
+            continue
+        if before.shape != after.shape or not np.array_equal(before, after):
+            fail(site, "result-overwritten-by-later-call",
+                 "r1 = f(x1) is unchanged by r2 = f(x2) (same geometry, other image)", {"first_diff": first_diff(after, before)})
+        if fid is not None:
+            put(fid, "two images: r1 read after r2 = f(x2)", codes_fwd(after, want))
+            put(fid, "two images: r2", codes_fwd(r2, want, shift=n_in))
+        if fid == 6:
+            # place_windows / adjoint identity with the (possibly stale) first windows
+            yw = np.arange(after.size, dtype=np.float64).reshape(after.shape) % 7 - 3
+            try:
+                img = np.asarray(ct.place_windows(yw, shp, a["kernel"], a["stride"], a["padding"], a["dilation"]))
+                w0 = np.asarray(ct.extract_windows(x1, a["kernel"], a["stride"], a["padding"], a["dilation"], pad_value=0))
+                keep = np.array(w0, copy=True)
+                ct.extract_windows(x2, a["kernel"], a["stride"], a["padding"], a["dilation"], pad_value=0)
+                lhs, rhs, rhs0 = float(np.vdot(w0, yw)), float(np.vdot(x1, img)), float(np.vdot(keep, yw))
+                if lhs != rhs:
+                    fail("conv_tools.extract_windows/place_windows", "not-adjoint-after-second-call",
+                         "vdot(w1, y) == vdot(x1, place_windows(y)) with w1 = extract_windows(x1) still in use after extract_windows(x2)",
+                         {"lhs": lhs, "rhs": rhs, "lhs_with_a_copy_of_w1_taken_before_the_second_call": rhs0})
+            except Exception as ex:
+                fail("conv_tools.extract_windows/place_windows", "two-image-sequence-raises", "adjoint sequence runs", "%s: %s" % (type(ex).__name__, str(ex)[:120]))
+    if _snap([x1, x2]) != xs:
+        fail("conv_tools (forward entry points)", "caller-input-mutated", "inputs x1, x2 are bit-identical after the calls", "changed")
+    return t, fails
 
 
 # ------------------------------------------------------------------ oracle: judged on the implementation only
@@ -650,8 +776,16 @@ def run(ctx):
     cases = []
     nontrivial = set()
     t0 = time.time()
+    seq_fails = []
+    n_seq_tables = 0
     for i, g in enumerate(geoms):
         tb = probe_all(g)
+        st, sf = probe_sequences(g)
+        for fid, per in st.items():
+            tb[fid].update(per)
+        n_seq_tables += sum(len(per) for per in st.values())
+        for f in sf:
+            seq_fails.append((g, f))
         cases.append((g, tb))
         n_in = g["N"] * g["C"] * g["H"] * g["W"]
         if tb[0]["C"] != list(range(1, n_in + 1)):
@@ -678,9 +812,9 @@ def run(ctx):
             ci, fid = divmod(code, 100)
             g, tb = cases[k + ci]
             per = tb[fid]
-            odd = [l for l in LAYOUTS if per[l] != per["C"]]
+            odd = [l for l in per if per[l] != per["C"]]
             mism.append({"function": FN_NAMES[fid], "geometry": g,
-                         "layouts": odd and ("result depends on the memory layout of the argument: %s differ from C" % odd) or "all layouts",
+                         "layouts": odd and ("result depends on the memory layout of the argument / on earlier calls: %s differ from the plain C-contiguous call" % odd) or "all layouts and call sequences",
                          "implementation_table": (per[odd[0]] if odd else per["C"])[:40]})
     ctx.tie("conv_tools index maps (16 functions x 6 memory layouts x geometry grid)", "correspondence", len(cases) * 16 * len(LAYOUTS), len(nontrivial), mism,
             exhaustive=True,
@@ -689,6 +823,18 @@ def run(ctx):
                  "N,C in {1,2}; every argument is passed in 6 memory layouts (C, F, fully / partially transposed view, strided slice, negative strides) — "
                  "the model abstracts from layout, so all must give the model's table; non-trivial = forward map of im2col is not the identity" % ((3, 7) if ctx.quick else (4, 9)))
     ctx.extra["geometries"] = len(geoms)
+
+    # ---- tie 1b: call sequences — nothing leaks from one call into another ------------------------------------------
+    seq_m = [{"geometry": g, "site": f["site"], "class": f["klass"], "observed": f["observed"]} for g, f in seq_fails]
+    ctx.tie("call sequences: shared index arrays reused across im2col/col2im calls; two images with one geometry", "correspondence",
+            len(geoms) * 13, sum(1 for g in geoms if g["pH"] or g["pW"]), seq_m,
+            note="per geometry: 2 sequences im2col -> col2im x3 -> im2col sharing one (k,i,j) (from get_im2col_indices / return_indices=True), "
+                 "11 sequences r1=f(x1); r2=f(x2) (im2col* both layouts, extract_windows, nn.functional.unfold, conv2d/avg_pool2d/max_pool2d forward windows); "
+                 "judged: caller's index arrays and inputs bit-identical afterwards, r1 unchanged by the second call, adjoint identity with the first windows "
+                 "after the second call; the %d tables of all calls were compared with the model in the tie above; non-trivial = geometries with padding" % n_seq_tables)
+    for g, f in seq_fails:
+        f["seq"] = True
+        oracle_fails.append((g, f))
 
     # ---- tie 2: 1-D windows on the exhaustive per-axis grid -----------------------------------------------------
     g1 = geometry_1d_cases(ctx.quick)
@@ -777,7 +923,10 @@ def run(ctx):
         if key in seen:
             continue
         seen.add(key)
-        ctx.witness(f["site"], f["klass"], {"geometry": g, "seed": f["seed"]}, f["expected"], f["observed"])
+        inp = {"geometry": g, "seed": f["seed"]}
+        if f.get("seq"):
+            inp["sequence"] = True
+        ctx.witness(f["site"], f["klass"], inp, f["expected"], f["observed"])
     ctx.extra["oracle_failures"] = len(oracle_fails)
 
 
@@ -797,6 +946,10 @@ def replay(ctx, data):
         bad = [(n, o) for n, o in run_int_tuple(g, inp["int_arguments"]) if o and n == data["site"]]
         print("observed", bad, "recorded", data["observed"])
         return 1 if bad else 0
+    if inp.get("sequence"):
+        fs = [f for f in probe_sequences(g)[1] if f["site"] == data["site"]]
+        print("observed", json.dumps(fs, default=str)[:600], "recorded", data["observed"])
+        return 1 if fs else 0
     try:
         import torch
     except Exception:
